@@ -284,7 +284,44 @@ func runReset(c *core.Ctx) []core.Obligation {
 			}
 		}
 	}
+	obs = append(obs, cursorAdvance(c))
 	return obs
+}
+
+// cursorAdvance (after round-6 seed C14-r6m2, `s.pendingAdditionsPos = int32(len(s.shapes))`): applyUpdatesInternal
+// indexes the shapes with ids in [pendingAdditionsPos, nextID) and then moves the cursor. The cursor must move to the
+// loop's own limit, the field nextID: any other quantity (the number of live shapes is smaller once a shape has been
+// removed) leaves the cursor behind, and the next update indexes already indexed shapes a second time.
+func cursorAdvance(c *core.Ctx) core.Obligation {
+	const construct = "ShapeIndex.applyUpdatesInternal:cursor-moves-to-nextID"
+	fn := c.Fn("s2", "ShapeIndex", "applyUpdatesInternal")
+	if fn == nil {
+		return core.Ob("R-RESET", construct, "-", "", core.Violated, "unresolved anchor")
+	}
+	n, bad := 0, ""
+	core.AllInstrs(fn, func(in ssa.Instruction) {
+		st, ok := in.(*ssa.Store)
+		if !ok {
+			return
+		}
+		fr, ok := core.AsFieldAddr(st.Addr)
+		if !ok || fr.Name != "pendingAdditionsPos" {
+			return
+		}
+		n++
+		src, ok := core.AsFieldLoad(core.StripConv(st.Val))
+		if !ok || src.Name != "nextID" {
+			bad = c.Pos(st.Pos())
+		}
+	})
+	switch {
+	case n == 0:
+		return core.Ob("R-RESET", construct, c.Pos(fn.Pos()), core.FuncName(fn), core.Violated, "applyUpdatesInternal no longer moves pendingAdditionsPos: every later update indexes all shapes again")
+	case bad != "":
+		return core.Ob("R-RESET", construct, bad, core.FuncName(fn), core.Violated,
+			"pendingAdditionsPos is set to something other than nextID, the limit of the loop that has just indexed the pending shapes: once a shape has been removed the two differ, the cursor stays behind, and the next update adds the edges of already indexed shapes a second time (or, if it runs ahead, never indexes new ones)")
+	}
+	return core.Ob("R-RESET", construct, c.Pos(fn.Pos()), core.FuncName(fn), core.Discharged, "the cursor moves to nextID, the limit of the indexing loop")
 }
 
 func uniq(s []string) []string {
